@@ -355,6 +355,8 @@ def check(prop, tier, seed, params):
     for eng in prop.engines:
         lines = eng.gen("thorough" if (widen and tier == "quick") else tier, seed, params)
         lines = list(dict.fromkeys(lines))
+        if not lines:
+            continue
         r = run_engine(eng, lines, tier) if driver_ok or not eng.compare else {"M": [], "O": [], "n": 0, "impl": {}, "model": {}}
         if "build_error" in r:
             build_errors.append({"engine": eng.name, "error": r["build_error"]})
